@@ -4,11 +4,11 @@ CONSTANTS
   MaxRedirect = 65535
   MaxHeader = 255
   Deviations = {}
-  Bug = ""
+  Bug = "BoundaryEntryLost"
   Mode = "lk"
   NC = 2
-  MaxBody = 3
-  MaxPrefix = 2
+  MaxBody = 2
+  MaxPrefix = 0
   SkipBytes = {0, 128}
   Variants = {0}
   DimVals = {0, 3}
